@@ -145,6 +145,21 @@ Definition gate_open (s : nstate) (g : gate) : bool :=
   | GVirtioPF => hasb (ns_acked_virtio s) VF_PROTOCOL_FEATURES
   end.
 
+(* C05: how many descriptors the request prescribes, for requests whose handler takes any: the ring descriptor
+   messages carry exactly one unless bit 8 of the payload says none; a memory table one per region; the others one.
+   [None]: the request takes no descriptor (and a message that carries one is refused). *)
+Definition fds_prescribed (m : cmsg) : option N :=
+  let c := m_code m in
+  if (c =? 12) || (c =? 13) || (c =? 14) then Some (if hasb (u (m_body m) 0 8) 256 then 0 else 1)
+  else if c =? 5 then Some (u (m_body m) 0 4)
+  else if existsb (N.eqb c) [6; 21; 32; 37; 42; 33] then Some 1
+  else None.
+Definition fds_as_prescribed (m : cmsg) : bool :=
+  match fds_prescribed m with
+  | Some n => N.of_nat (List.length (m_fds m)) =? n
+  | None => match m_fds m with [] => true | _ => false end
+  end.
+
 Definition accepted (res : string) : bool := String.eqb res "ok" || String.eqb res "ReqHandlerError".
 
 (* expected header of a response to request m: code, flags = version 1 + REPLY, no NEED_REPLY *)
@@ -198,6 +213,7 @@ Fixpoint walk (cfg_features : N) (s : nstate) (msgs : list cmsg) (results : list
             match calls with
             | [] => 4
             | c :: cs =>
+                and_then (fds_as_prescribed m) 5 (
                 and_then (String.eqb (call_name c) (ri_name info)) 4
                   (let s' :=
                     if m_code m =? 1 then
@@ -219,7 +235,7 @@ Fixpoint walk (cfg_features : N) (s : nstate) (msgs : list cmsg) (results : list
                                  (walk cfg_features s' ms rs cs xs)
                     | [] => 4
                     end
-                  else walk cfg_features s' ms rs cs sent)
+                  else walk cfg_features s' ms rs cs sent))
             end
           else
             (* refused (malformed body, wrong descriptors, ...): no invocation; a failure
